@@ -132,7 +132,10 @@ def run_check(pid, tier, seed, replay=None, jobs=None):
     confirmed = []
     if violations and getattr(mod, "CONFIRM_STOCK", False) and env.fastsim_enabled():
         # the stock interpreter is 15-20x slower: confirm, for every distinct failing clause, the scenario that reaches it soonest
-        order = sorted(violations, key=lambda v: (v[1].get("confirm_hint") is None, v[1].get("confirm_hint") or 0))
+        def _cost(v):
+            h = v[1].get("confirm_hint")
+            return (0, h) if isinstance(h, (int, float)) and not isinstance(h, bool) else (1, 0)
+        order = sorted(violations, key=_cost)
         chosen, covered = [], set()
         for v in order:
             ks = {k for k, _ in v[2]}
